@@ -670,6 +670,11 @@ func r03_5(c *Ctx, rule string) {
 		if e, ok := v.(*ssa.Extract); ok && e.Tuple == ssa.Value(look) && e.Index == 0 {
 			return 1
 		}
+		// (a variable assigned once by a literal applied on the spot:
+		// `withLock(func() { pw, ok = r.pipes[id] })`)
+		if cv := eng.Canon(v); cv != v {
+			return classify(cv, d+1, seen)
+		}
 		if rs := eng.ResolveAll(v); len(rs) > 1 || (len(rs) == 1 && rs[0] != v) {
 			res := 1
 			for _, r := range rs {
